@@ -358,7 +358,8 @@ def execute(scenario):
                 cash_w = reb["post"]["w"].get("USD", None)
                 if cash_w is not None:
                     # fully-paid contracts consume cash; margined ones only post margin (reported separately)
-                    spot_w = sum(w for sym, w in want.items() if float(epicheck_params(h, sym)[1]) == 1.0 and sym not in dust)
+                    # (a dust position is either kept or dropped by the broker: whatever it reports for it counts)
+                    spot_w = sum((w if sym not in dust else reb["post"]["w"].get(sym, 0.0)) for sym, w in want.items() if float(epicheck_params(h, sym)[1]) == 1.0)
                     marg = sum(reb["post"]["margins"].get(sym, 0.0) for sym in want) / reb["post"]["nlv"]
                     if abs(cash_w - (1.0 - spot_w - marg)) > 1e-9 * 10:
                         violate("executed_weights", "step {}: cash weight {} but 1 - fully-paid weights {} - posted margins {} = {}".format(
